@@ -366,8 +366,18 @@ def check(prop, tier="quick", seed=0, repo="/repo", jobs=None, only=None, verbos
     n_obl = n_top + n_internal
     bounded_standin = [o.id for o, _, _ in undecided]
     samples = []
-    for rec in ob_records[:3]:
-        samples.append({k: rec[k] for k in ("id", "tier", "scope", "status", "goals", "scalar_goals", "backends")})
+    picked = [r_ for r_ in ob_records if r_["tier"] != "canary"][:2] + [r_ for r_ in ob_records if r_["tier"] == "canary"][:1]
+    for rec in picked:
+        smp = {k: rec[k] for k in ("id", "tier", "scope", "status", "paths", "goals", "scalar_goals", "backends")}
+        res = by_id.get(rec["id"])
+        if res and res["paths"]:
+            p0 = res["paths"][0]
+            smp["first_path"] = {"decisions": p0.get("trail"), "hypotheses": p0.get("n_hyps"),
+                                 "goals": [{"label": g["label"], "kind": g.get("kind"), "scalars": g.get("n", 1), "status": g["status"],
+                                            "backend": g.get("backend"), "max_terms": g.get("max_terms")} for g in p0["goals"][:8]],
+                                 "certificate_check": p0.get("cert_check")}
+        smp["inputs"] = (res or {}).get("inputs", [])[:24]
+        samples.append(smp)
     funcs = sorted({f for o in obs for f in o.funcs})
     scopes = {}
     for o in obs:
